@@ -280,9 +280,16 @@ pub fn judge_search_spans(case: &Case, out: &str) -> Vec<Fail> {
     for tc in &case.tcs {
         let got = re.find(tc).map(|m| (m.start(), m.end()));
         if got != Some((0, tc.len())) {
+            // the same search on the regex crate's reference engine (PikeVM: no prefilter, no reverse searches)
+            let reference = oracle::pikevm_find(out, tc);
+            let note = if reference == Some(Some((0, tc.len()))) {
+                "; the reference engine (PikeVM) of the same crate finds the whole test case: the default (meta) engine is not leftmost-first here"
+            } else {
+                ""
+            };
             fails.push(Fail::new(
                 Kind::Span,
-                format!("searching {:?} with {:?} gives {:?}, not the whole test case (0, {})", tc, out, got, tc.len()),
+                format!("searching {:?} with {:?} gives {:?}, not the whole test case (0, {}){}", tc, out, got, tc.len(), note),
                 Some(tc.clone()),
             ));
         }
